@@ -44,8 +44,8 @@ CLAIMED = {
     ),
     "C17": dict(
         text="Coq theorems on a lock-table model of open / close / destroy_database: in every reachable state at most one handle is open and it is the lock owner; a failed open or destroy changes nothing; while a handle is open every further open and destroy fails; after a close exactly one of any set of racing opens succeeds. Tied to the code by scripts and thread races on TmpFileSystem (real flock) compared step by step with the extracted model.",
-        note="Assumes kernel flock semantics (one holder per open file description, released on close).",
-        design="6 / C17",
+        note="Assumes kernel flock semantics (one holder per open file description, released on close). Two refinements of the atomic model are proved and tied to the code separately, not composed: destroy_database in its three externally visible steps with flocks attached to inodes (LockPhases.v, defect D18), and lock_file in its two system calls, open then flock, with destroy_database unlinking the name in between (LockFd.v, defect D20: the repaired code looks the name up again after the flock; single owner in every state of every schedule, exactly one winner in each of the six interleavings of two racing openers; the pinned code is refuted). Both are compared step by step with the real code on TmpFileSystem, the opener / destroyer parked at hook points between their steps; a handle closed while its compaction thread is busy (flush, follow-up table compaction) admits nobody before the close has returned.",
+        design="6 / C17, 0.9, 0.18",
         technique="machine-checked proof in Coq (invariant over all interleavings of atomic actions) + checked model-code correspondence",
     ),
     "C13": dict(
